@@ -266,15 +266,17 @@ class InSituLCA:
         def wrap(name, want_fn):
             orig = mon.saved[name]
 
-            def wrapper(self_, *nodes):
-                res = orig(self_, *nodes)
-                M, ids = model(self_)
-                try:
-                    args = [ids[x] for x in nodes]
-                except KeyError:
+            def wrapper(self_, *nodes, **kw):
+                res = orig(self_, *nodes, **kw)
+                if kw:
                     return res
-                want = want_fn(M, *args)
-                got = ids.get(res, res) if name == "__call__" else res
+                try:
+                    M, ids = model(self_)
+                    args = [ids[x] for x in nodes]
+                    want = want_fn(M, *args)
+                    got = ids.get(res, res) if name == "__call__" else res
+                except (KeyError, TypeError, AttributeError, AssertionError, ValueError):
+                    return res  # called in a way / on a structure the contract does not know: not observed
                 mon.n += 1
                 if got != want:
                     mon.ctx.viol("C17.insitu", dict(mon.case, query=name, args=args), f"in-situ {name}{tuple(args)} = {got}, definition gives {want}")
